@@ -61,7 +61,22 @@ def check(ctx):
     ctx.need(par[:4] == ['self', 'pk', 'expected_reply', 'resend'], 'send_packet signature changed: %s' % par)
 
     sends = g.find(lambda n: method_call(n, 'send_packet') and norm(n.func.value) == 'self.link')
-    ctx.need(len(sends) >= 1, 'send_packet: no self.link.send_packet(...)')
+    if not sends:
+        # the link taken from a local: the local must have been read from self.link while the send lock is held (read before the lock
+        # is taken, it may be a link that was closed - and its retry timers dropped - while this sender waited for the lock)
+        loc = g.find(lambda n: method_call(n, 'send_packet') and isinstance(n.func.value, ast.Name) and n.func.value.id not in sp.params)
+        withs_ = [w for w in walk_own(sp.node) if isinstance(w, ast.With) and any('_send_lock' in norm(i.context_expr) for i in w.items)]
+        locked_ = {id(x) for w in withs_ for s_ in w.body for x in walk_own(s_)}
+        acq_ = g.find(lambda n: method_call(n, 'acquire') and '_send_lock' in norm(n.func.value))
+        stale = []
+        for n_, c_ in loc:
+            for d_ in g.reaching_defs(n_, c_.func.value.id):
+                dv_ = g.def_value(d_, c_.func.value.id)
+                inside = d_.ast is not None and (id(d_.ast) in locked_ or any(g.dominates(a_[0], d_) for a_ in acq_))
+                if dv_ is not None and norm(dv_) == 'self.link' and not inside:
+                    stale.append('%s = self.link at line %d' % (c_.func.value.id, d_.line))
+        ctx.inst('R2', sp, 'link-read-under-the-send-lock', bool(loc) and not stale, 'the link that transmits is read from self.link after the send lock was taken; read before: %s' % stale)
+        ctx.need(not stale and len(sends) >= 1, 'send_packet: no self.link.send_packet(...)')
 
     # ---- R1: timers ------------------------------------------------------------
     timers = g.find(lambda n: isinstance(n, ast.Call) and dotted(n.func) in ('Timer', 'threading.Timer'))
@@ -205,6 +220,19 @@ def check(ctx):
     reg = [c for c in walk_own(klass.method('__init__').node) if method_call(c, 'add_callback') and
            norm(c.func.value) == 'self.packet_received' and [norm(a) for a in c.args] == ['self._check_for_answers']]
     ctx.inst('R3', klass.method('__init__'), 'registered', len(reg) == 1, '_check_for_answers must see every received packet')
+
+    # the answer check runs before the port callbacks of the same packet: a callback that sends its next request with the same pattern
+    # must find the old timer already cancelled (otherwise the old reply cancels the new request, which is then never retried)
+    runf = m.func(CF, '_IncomingPacketHandler.run')
+    grun = cfg_of(runf)
+    allp = grun.find(lambda q: method_call(q, 'call') and norm(q.func.value).endswith('packet_received'))
+    portcb = grun.find(lambda q: isinstance(q, ast.Call) and isinstance(q.func, ast.Attribute) and q.func.attr == 'callback')
+    ctx.inst('R3', runf, 'answers-checked-before-port-callbacks', len(allp) == 1 and bool(portcb) and all(grun.dominates(allp[0][0], n_) for n_, _ in portcb),
+             'packet_received (which runs _check_for_answers) is called before the port callbacks of the packet')
+    # ... through a fan-out that iterates a snapshot: _check_for_initial_packet_cb removes itself from packet_received during the first
+    # packet; on the live list the next entry - _check_for_answers - would be skipped for that packet (shared rule, see C07.R2)
+    from .c07 import caller_rules
+    caller_rules(ctx, 'R3')
 
     # ---- R4: removals cancel ------------------------------------------------------
     for f in klass.methods.values():
